@@ -1,6 +1,13 @@
 import WaVerif.Base.Proto
 import WaVerif.Model.C14Hex
 import WaVerif.Model.C14Hash
+import WaVerif.Model.C14Conv
+import WaVerif.Model.C14Utf8
+import WaVerif.Model.C14B64
+import WaVerif.Model.C14B32
+import WaVerif.Model.C14Bits
+import WaVerif.Model.C14Sort
+import WaVerif.Model.C14Md5
 /-! Line protocol over the executable C14 models (core-only).  Byte strings are lowercase hex ("-" = empty),
 numbers decimal.  One output line per input line; unknown ops answer `bad-op`. -/
 open WaVerif WaVerif.Proto WaVerif.C14 WaVerif.C14.Gen
@@ -33,6 +40,7 @@ def handleHash (ws : List String) : Option String :=
   | ["fnv32a", h] => (parseHex h).map fun bs => toString (fnv32a bs)
   | ["fnv64", h] => (parseHex h).map fun bs => toString (fnv64 bs)
   | ["fnv64a", h] => (parseHex h).map fun bs => toString (fnv64a bs)
+  | ["md5", h] => (parseHex h).map fun bs => toHex (Md5.sum bs)
   | _ => none
 
 def handleHex (ws : List String) : Option String :=
@@ -43,13 +51,133 @@ def handleHex (ws : List String) : Option String :=
   | ["hex.declen", n] => (parseNat n).map fun n => toString (hexDecodedLen n)
   | _ => none
 
+def showPRes : PRes → String
+  | .ok n => s!"{n} nil"
+  | .range n => s!"{n} range"
+  | .syntax => "0 syntax"
+  | .base => "0 base"
+  | .bits => "0 bits"
+
+def handleConv (ws : List String) : Option String :=
+  match ws with
+  | ["conv.fmtu", u, b] => do
+      let u ← parseNat u; let b ← parseNat b
+      pure (toHex (formatUint u b))
+  | ["conv.fmti", v, b] => do
+      let v ← parseInt v; let b ← parseNat b
+      pure (toHex (formatInt v b))
+  | ["conv.parseu", h, b, bits] => do
+      let s ← parseHex h; let b ← parseInt b; let bits ← parseInt bits
+      pure (showPRes (parseUint s b bits))
+  | ["conv.parsei", h, b, bits] => do
+      let s ← parseHex h; let b ← parseInt b; let bits ← parseInt bits
+      pure (showPRes (C14.parseInt s b bits))
+  | _ => none
+
+def showPair (p : Nat × Nat) : String := s!"{p.1} {p.2}"
+
+def handleUtf8 (ws : List String) : Option String :=
+  match ws with
+  | ["utf8.enc", r] => (parseInt r).map fun r => toHex (encodeRune r)
+  | ["utf8.len", r] => (parseInt r).map fun r => toString (runeLen r)
+  | ["utf8.validrune", r] => (parseInt r).map fun r => toString (validRune r)
+  | ["utf8.dec", h] => (parseHex h).map fun bs => showPair (decodeRune bs)
+  | ["utf8.decspec", h] => (parseHex h).map fun bs => showPair (decodeSpec bs)
+  | ["utf8.declast", h] => (parseHex h).map fun bs => showPair (decodeLastRune bs)
+  | ["utf8.valid", h] => (parseHex h).map fun bs => toString (valid bs)
+  | ["utf8.count", h] => (parseHex h).map fun bs => toString (runeCount bs)
+  | ["utf8.full", h] => (parseHex h).map fun bs => toString (fullRune bs)
+  | _ => none
+
+def enc64Of (n : String) : Option B64Enc :=
+  if n = "Std" then some encStd else if n = "URL" then some encURL
+  else if n = "RawStd" then some encRawStd else if n = "RawURL" then some encRawURL else none
+
+def enc32Of (n : String) : Option B64Enc :=
+  if n = "Std" then some enc32Std else if n = "Hex" then some enc32Hex else none
+
+def handleB (ws : List String) : Option String :=
+  match ws with
+  | ["b64.enc", e, h] => do let e ← enc64Of e; let bs ← parseHex h; pure (toHex (b64Encode e bs))
+  | ["b64.dec", e, h] => do let e ← enc64Of e; let bs ← parseHex h; pure (optBytes (b64Decode e bs))
+  | ["b64.enclen", e, n] => do let e ← enc64Of e; let n ← parseNat n; pure (toString (b64EncodedLen e n))
+  | ["b64.declen", e, n] => do let e ← enc64Of e; let n ← parseNat n; pure (toString (b64DecodedLen e n))
+  | ["b32.enc", e, h] => do let e ← enc32Of e; let bs ← parseHex h; pure (toHex (b32Encode e bs))
+  | ["b32.dec", e, h] => do let e ← enc32Of e; let bs ← parseHex h; pure (optBytes (b32Decode e bs))
+  | ["b32.enclen", n] => (parseNat n).map fun n => toString (b32EncodedLen n)
+  | ["b32.declen", n] => (parseNat n).map fun n => toString (b32DecodedLen n)
+  | _ => none
+
+def bv (w : Nat) (s : String) : Option (BitVec w) := (parseNat s).map (BitVec.ofNat w)
+
+def showBV2 {w : Nat} (p : BitVec w × BitVec w) : String := s!"{p.1.toNat} {p.2.toNat}"
+
+def handleBits (ws : List String) : Option String :=
+  match ws with
+  | ["bits.OnesCount8", x] => (bv 8 x).map fun x => toString (onesCount8 x)
+  | ["bits.OnesCount16", x] => (bv 16 x).map fun x => toString (onesCount16 x)
+  | ["bits.OnesCount32", x] => (bv 32 x).map fun x => toString (onesCount32 x)
+  | ["bits.OnesCount64", x] => (bv 64 x).map fun x => toString (onesCount64 x)
+  | ["bits.Len8", x] => (bv 8 x).map fun x => toString (len8 x)
+  | ["bits.Len16", x] => (bv 16 x).map fun x => toString (len16 x)
+  | ["bits.Len32", x] => (bv 32 x).map fun x => toString (len32 x)
+  | ["bits.Len64", x] => (bv 64 x).map fun x => toString (len64 x)
+  | ["bits.LeadingZeros8", x] => (bv 8 x).map fun x => toString (leadingZeros8 x)
+  | ["bits.LeadingZeros16", x] => (bv 16 x).map fun x => toString (leadingZeros16 x)
+  | ["bits.LeadingZeros32", x] => (bv 32 x).map fun x => toString (leadingZeros32 x)
+  | ["bits.LeadingZeros64", x] => (bv 64 x).map fun x => toString (leadingZeros64 x)
+  | ["bits.TrailingZeros8", x] => (bv 8 x).map fun x => toString (trailingZeros8 x)
+  | ["bits.TrailingZeros16", x] => (bv 16 x).map fun x => toString (trailingZeros16 x)
+  | ["bits.TrailingZeros32", x] => (bv 32 x).map fun x => toString (trailingZeros32 x)
+  | ["bits.TrailingZeros64", x] => (bv 64 x).map fun x => toString (trailingZeros64 x)
+  | ["bits.Reverse8", x] => (bv 8 x).map fun x => toString (reverse8 x).toNat
+  | ["bits.Reverse16", x] => (bv 16 x).map fun x => toString (reverse16 x).toNat
+  | ["bits.Reverse32", x] => (bv 32 x).map fun x => toString (reverse32 x).toNat
+  | ["bits.Reverse64", x] => (bv 64 x).map fun x => toString (reverse64 x).toNat
+  | ["bits.ReverseBytes16", x] => (bv 16 x).map fun x => toString (reverseBytes16 x).toNat
+  | ["bits.ReverseBytes32", x] => (bv 32 x).map fun x => toString (reverseBytes32 x).toNat
+  | ["bits.ReverseBytes64", x] => (bv 64 x).map fun x => toString (reverseBytes64 x).toNat
+  | ["bits.RotateLeft8", x, k] => do let x ← bv 8 x; let k ← parseInt k; pure (toString (rotateLeftW x k).toNat)
+  | ["bits.RotateLeft16", x, k] => do let x ← bv 16 x; let k ← parseInt k; pure (toString (rotateLeftW x k).toNat)
+  | ["bits.RotateLeft32", x, k] => do let x ← bv 32 x; let k ← parseInt k; pure (toString (rotateLeftW x k).toNat)
+  | ["bits.RotateLeft64", x, k] => do let x ← bv 64 x; let k ← parseInt k; pure (toString (rotateLeftW x k).toNat)
+  | ["bits.Add64", x, y, c] => do let x ← bv 64 x; let y ← bv 64 y; let c ← bv 64 c; pure (showBV2 (add64 x y c))
+  | ["bits.Add32", x, y, c] => do let x ← bv 32 x; let y ← bv 32 y; let c ← bv 32 c; pure (showBV2 (add32 x y c))
+  | ["bits.Sub64", x, y, c] => do let x ← bv 64 x; let y ← bv 64 y; let c ← bv 64 c; pure (showBV2 (sub64 x y c))
+  | ["bits.Sub32", x, y, c] => do let x ← bv 32 x; let y ← bv 32 y; let c ← bv 32 c; pure (showBV2 (sub32 x y c))
+  | ["bits.Mul32", x, y] => do let x ← bv 32 x; let y ← bv 32 y; pure (showBV2 (mul32 x y))
+  | ["bits.Mul64", x, y] => do let x ← parseNat x; let y ← parseNat y; pure (showPair (mul64 x y))
+  | ["bits.Div64", h, l, y] => do
+      let h ← parseNat h; let l ← parseNat l; let y ← parseNat y
+      match div64 h l y with
+      | some p => pure (showPair p)
+      | none => pure "panic"
+  | ["bits.Rem64", h, l, y] => do
+      let h ← parseNat h; let l ← parseNat l; let y ← parseNat y
+      if y = 0 then pure "panic" else
+      match div64 (h % y) l y with
+      | some p => pure (toString p.2)
+      | none => pure "panic"
+  | _ => none
+
+def handleSort (ws : List String) : Option String :=
+  match ws with
+  | "sort.ints" :: vs => do
+      let xs ← vs.mapM parseInt
+      pure (" ".intercalate ((sortInts xs).map toString))
+  | "sort.strs" :: vs => do
+      let xs ← vs.mapM parseHex
+      pure (" ".intercalate ((sortStrings xs).map toHex))
+  | _ => none
+
+def firstSome (fs : List (List String → Option String)) (ws : List String) : String :=
+  match fs with
+  | [] => "bad-op"
+  | f :: rest => match f ws with
+    | some r => r
+    | none => firstSome rest ws
+
 def handle (line : String) : String :=
-  let ws := words line
-  match handleHex ws with
-  | some r => r
-  | none =>
-  match handleHash ws with
-  | some r => r
-  | none => "bad-op"
+  firstSome [handleHex, handleHash, handleConv, handleUtf8, handleB, handleBits, handleSort] (words line)
 
 def main : IO Unit := lineLoop handle
